@@ -45,12 +45,12 @@ AutoNow(w, f) == f.auto /\ Hooks(w) /\ (StructPay(w) \/ ~InPay(w, f))
 
 InsertedCol(w, f) ==
   /\ HasCol(f) /\ Creatable(f) /\ ~Omit(w, f)
-  /\ IF w.op = "create_map" THEN InPay(w, f) /\ (Sel(w, f) \/ ~Restricted(w))
+  /\ IF w.op \in {"create_map", "create_maps"} THEN InPay(w, f) /\ (Sel(w, f) \/ ~Restricted(w))
      ELSE /\ (Sel(w, f) \/ ~Restricted(w) \/ f.auto)
           /\ (~f.key \/ ~ZeroIn(w, f))          \* zero key = auto-increment
 \* in a NEW row a zero value of a field with a literal default shows the default (written or not, the
 \* cell holds the default): it counts as not written
-WrittenOnCreate(w, f) == InsertedCol(w, f) /\ (w.op = "create_map" \/ ~f.dflt \/ ~ZeroIn(w, f))
+WrittenOnCreate(w, f) == InsertedCol(w, f) /\ (w.op \in {"create_map", "create_maps"} \/ ~f.dflt \/ ~ZeroIn(w, f))
 
 \* upsert (OnConflict UpdateAll) on an existing row: the inserted columns that may also be updated
 \* (a zero value of a field with a literal default is inserted as that default and therefore also
@@ -60,7 +60,7 @@ WrittenOnUpsert(w, f) == InsertedCol(w, f) /\ Updatable(f) /\ ~f.key /\ ~f.dbd
 
 Written(m, w) ==
   {m[i].name : i \in {j \in DOMAIN m :
-      CASE w.op \in {"create", "create_map", "create_slice"} -> WrittenOnCreate(w, m[j])
+      CASE w.op \in {"create", "create_map", "create_maps", "create_slice"} -> WrittenOnCreate(w, m[j])
         [] w.op = "upsert" -> WrittenOnUpsert(w, m[j])
         [] OTHER -> WrittenOnUpdate(w, m[j])}}
 
@@ -69,7 +69,7 @@ CONSTANTS Perms
 Model2 == {<<[name |-> "ID", perm |-> "rw", auto |-> FALSE, key |-> TRUE, dflt |-> FALSE, dbd |-> FALSE],
              [name |-> "F1", perm |-> p1, auto |-> FALSE, key |-> FALSE, dflt |-> d1, dbd |-> FALSE],
              [name |-> "F2", perm |-> p2, auto |-> a2, key |-> FALSE, dflt |-> FALSE, dbd |-> FALSE]>> : p1 \in Perms, p2 \in Perms, a2 \in BOOLEAN, d1 \in BOOLEAN}
-OpsAll == {"updates_struct", "updates_map", "update", "ucols_struct", "ucols_map", "ucol", "save", "create", "create_slice", "create_map", "upsert"}
+OpsAll == {"updates_struct", "updates_map", "update", "ucols_struct", "ucols_map", "ucol", "save", "create", "create_slice", "create_map", "create_maps", "upsert"}
 Pays == {<<>>, <<[f |-> "F1", zero |-> FALSE]>>, <<[f |-> "F1", zero |-> TRUE]>>,
          <<[f |-> "F1", zero |-> FALSE], [f |-> "F2", zero |-> TRUE]>>, <<[f |-> "F1", zero |-> TRUE], [f |-> "F2", zero |-> FALSE]>>}
 FullPay(p) == <<[f |-> "ID", zero |-> FALSE]>> \o p \o (IF \E i \in DOMAIN p : p[i].f = "F2" THEN <<>> ELSE <<[f |-> "F2", zero |-> TRUE]>>)
@@ -86,8 +86,8 @@ FieldOf(n) == m[CHOOSE i \in DOMAIN m : m[i].name = n]
 OnlyPermitted == \A n \in Written(m, w) :
    LET f == FieldOf(n) IN
    /\ HasCol(f) /\ f.perm # "ro" /\ f.perm # "none"
-   /\ (w.op \in {"create", "create_map", "create_slice"} => Creatable(f))
-   /\ (w.op \notin {"create", "create_map", "create_slice"} => Updatable(f))
+   /\ (w.op \in {"create", "create_map", "create_maps", "create_slice"} => Creatable(f))
+   /\ (w.op \notin {"create", "create_map", "create_maps", "create_slice"} => Updatable(f))
 \* Omit always wins
 OmitWins == \A n \in Written(m, w) : n \notin w.omit
 \* the column-update methods never refresh a tracked update-time field by themselves
